@@ -10,7 +10,7 @@ from gym_gridverse.action import Action
 from gym_gridverse.envs.yaml.factory import factory_env_from_data
 from gym_gridverse.grid_object import Color, grid_object_registry
 
-from vt import comp, gen, impl, miniyaml, wire
+from vt import access, comp, gen, impl, miniyaml, wire
 
 REPO = vt.boot.REPO
 ACTS = list(Action)
@@ -138,9 +138,8 @@ def run_ops(env, desc, ops, debug, seed):
     gvdebug.reset_gv_debug(debug)
     outs = []
     with impl.Journal(seed) as j:
-        env._rng = j.own
-        env._state = None
-        env._observation = None
+        access.set_rng(env, j.own)
+        access.forget(env)
         for kind, arg in ops:
             try:
                 if kind == 'reset':
